@@ -50,9 +50,10 @@ def cmd_digests(prop, tier, batch_seed, spec):
         if hasattr(w, "prepare"):
             w.prepare(tier)
         out[wname] = {}
+        core.preimport()
         for i in [int(x) for x in idxs.split(",") if x]:
             seed = core.run_seed(batch_seed, wname, prop, i)
-            _, c = core.one_run(wname, prop, tier, seed, i, batch_seed, 300)
+            _, c = core.isolated_run(wname, prop, tier, seed, i, batch_seed, 300)
             out[wname][str(i)] = c.get("digest", c.get("harness_error"))
     print("DIGESTS " + json.dumps(out, sort_keys=True))
     return 0
@@ -177,8 +178,8 @@ def run_check(prop, tier, batch_seed, workers, runs_override=None, budget_overri
             small = sched
         # violation record of the shrunk schedule
         try:
-            r2 = core.world(wname).execute(small)
-            v2 = next((x for x in r2.violations if core.same_class(x, v)), v)
+            vs2 = core.isolated_violations(wname, small, 300) or []
+            v2 = next((x for x in vs2 if core.same_class(x, v)), v)
         except Exception:
             v2 = v
         path = core.write_replay(prop, small, v2)
